@@ -291,7 +291,7 @@ void yield_point(bool force = false) {
       switch_to(pick(force ? me : nullptr), 'f');
     return;
   }
-  g_now += 1;
+  g_now += g_cfg.tick_ns ? g_cfg.tick_ns : 1;
   expire();
   if (g_points > g_cfg.max_points) {
     enter_fair_or_fail();
